@@ -1,5 +1,6 @@
 import StoneVerif.Model.Graph
 import StoneVerif.Lemmas.GraphOrder
+import StoneVerif.Lemmas.GraphAliasOrder
 /-!
 # C02 — the API description is a faithful, closed image
 
@@ -70,21 +71,60 @@ theorem linearize_types_total (g : Graph) (self : String) (ids : List Id) (rank 
     ∃ out, linearizeDataTypes g self ids = .ok out :=
   linAll_total rank hrank hnodes hb hids []
 
-/-- `linearize_aliases()` returns a permutation of `aliases`. -/
-theorem linearize_aliases_perm (g : Graph) (self : String) (ids out : List Id)
-    (h : linearizeAliases g self ids = .ok out) (hnd : ids.Nodup) (hown : OwnList g self ids)
-    (hclosed : LinkClosed g self (aliasLink g) ids) : out.Perm ids :=
-  (linAll_perm h hnd hown hclosed).1
+/-- an alias of the namespace mentioned (at any depth) by a listed alias is listed -/
+def AliasClosed (g : Graph) (self : String) (ids : List Id) : Prop :=
+  ∀ x nd a, x ∈ ids → g.node? x = some nd → a ∈ referencedAliases g nd.target → SameNs g self a → a ∈ ids
 
-/-- An alias whose target IS an alias of the same namespace comes after it. Nothing is guaranteed
-for a target that merely CONTAINS an alias (see the witness below). -/
-theorem linearize_aliases_direct_target_first (g : Graph) (self : String) (ids out : List Id)
-    (h : linearizeAliases g self ids = .ok out) (hnd : ids.Nodup) (hown : OwnList g self ids)
-    (hclosed : LinkClosed g self (aliasLink g) ids) :
+/-- aliases are acyclic: a rank that decreases from an alias of the namespace to every alias of the
+namespace its target mentions -/
+def AliasRank (g : Graph) (self : String) (rank : Id → Nat) : Prop :=
+  ∀ x nd a, g.node? x = some nd → nd.ns = self → a ∈ referencedAliases g nd.target → SameNs g self a →
+    rank a < rank x
+
+theorem aliasClosed_of_check (g : Graph) (self : String) (ids : List Id) (h : aliasClosedB g self ids = true) :
+    AliasClosed g self ids := by
+  intro x nd a hx hnd ha ⟨na, hna, hns⟩
+  simp only [aliasClosedB, List.all_eq_true] at h
+  have := h x hx
+  simp only [hnd, List.all_eq_true] at this
+  have := this a ha
+  simp only [hna, Bool.or_eq_true, bne_iff_ne, ne_eq] at this
+  rcases this with h' | h'
+  · exact absurd hns h'
+  · simpa using h'
+
+/-- `linearize_aliases()` returns a permutation of `aliases` (acyclic aliases). -/
+theorem linearize_aliases_perm (g : Graph) (self : String) (ids out : List Id) (rank : Id → Nat)
+    (h : linearizeAliases g self ids = .ok out) (hrank : AliasRank g self rank) (hnd : ids.Nodup)
+    (hown : OwnList g self ids) (hclosed : AliasClosed g self ids) : out.Perm ids :=
+  (linearizeAliases_inv h hrank hnd hown hclosed).1
+
+/-- Every alias of the same namespace mentioned ANYWHERE in an alias's target expression - directly or
+inside `List`, `Map`, `Nullable` - precedes it (acyclic aliases). -/
+theorem linearize_aliases_target_first (g : Graph) (self : String) (ids out : List Id) (rank : Id → Nat)
+    (h : linearizeAliases g self ids = .ok out) (hrank : AliasRank g self rank) (hnd : ids.Nodup)
+    (hown : OwnList g self ids) (hclosed : AliasClosed g self ids) :
+    ∀ t ∈ out, ∀ nd, g.node? t = some nd → ∀ a ∈ nd.target.refs, g.isAliasId a = true → SameNs g self a →
+      List.Sublist [a, t] out := by
+  intro t ht nd hnd' a ha hal hs
+  exact (linearizeAliases_inv h hrank hnd hown hclosed).2 t ht nd hnd' a
+    (by simp only [referencedAliases, List.mem_filter]; exact ⟨ha, hal⟩) hs
+
+/-- the direct case of `linearize_aliases_target_first` -/
+theorem linearize_aliases_direct_target_first (g : Graph) (self : String) (ids out : List Id) (rank : Id → Nat)
+    (h : linearizeAliases g self ids = .ok out) (hrank : AliasRank g self rank) (hnd : ids.Nodup)
+    (hown : OwnList g self ids) (hclosed : AliasClosed g self ids) :
     ∀ t ∈ out, ∀ nd, g.node? t = some nd → ∀ p, nd.target = .ref p → g.isAliasId p = true →
-      ∀ np, g.node? p = some np → np.ns = self → List.Sublist [p, t] out := by
-  intro t ht nd hnd' p hp hal np hnp hns
-  exact (linAll_perm h hnd hown hclosed).2 t ht nd hnd' p (by simp [aliasLink, hp, hal]) np hnp hns
+      SameNs g self p → List.Sublist [p, t] out := by
+  intro t ht nd hnd' p hp hal hs
+  exact linearize_aliases_target_first g self ids out rank h hrank hnd hown hclosed t ht nd hnd' p
+    (by simp [hp, TyExpr.refs]) hal hs
+
+/-- acyclic aliases make the walk total -/
+theorem linearize_aliases_total (g : Graph) (self : String) (ids : List Id) (rank : Id → Nat)
+    (hrank : AliasRank g self rank) (hids : ∀ x ∈ ids, ∃ nd, g.node? x = some nd)
+    (hb : ∀ x ∈ ids, rank x < g.chainFuel) : ∃ out, linearizeAliases g self ids = .ok out :=
+  linearizeAliases_total hrank hids hb
 
 /-- hand spec `graph_order`: `alias A = Z?`, `alias B = C`, `alias C = D`, `alias D = String`,
 `alias L = List(M)`, `alias M = Map(String, N)`, `alias N = Int32`, `alias Z = String`;
@@ -108,25 +148,31 @@ def gOrder : Graph :=
     namespaces := [{ name := "o", aliases := ["o.A", "o.B", "o.C", "o.D", "o.L", "o.M", "o.N", "o.Z"],
                      dataTypes := ["o.Child", "o.Mid", "o.Top"] }] }
 
-/-- WITNESS: an alias reached through `Nullable` / `List` / `Map` is NOT placed first: `A = Z?` is
-listed before `Z`, `L = List(M)` before `M`, `M = Map(String, N)` before `N` (the generated module
-refers to `Z_validator` before it is defined); direct targets are (`D`, `C`, `B`). -/
+/-- REGRESSION (was a witness of the defect repaired in /repo commit "linearize_aliases places aliases
+mentioned inside List, Map and Nullable first"): `A = Z?` now comes after `Z`, `L = List(M)` after `M`,
+`M = Map(String, N)` after `N`; direct chains as before (`D`, `C`, `B`). -/
 example : ((linearizeAliases gOrder "o" ["o.A", "o.B", "o.C", "o.D", "o.L", "o.M", "o.N", "o.Z"]).toOption
-      = some ["o.A", "o.D", "o.C", "o.B", "o.L", "o.M", "o.N", "o.Z"])
+      = some ["o.Z", "o.A", "o.D", "o.C", "o.B", "o.N", "o.M", "o.L"])
     ∧ "o.Z" ∈ (TyExpr.nullable (.ref "o.Z")).refs := by decide
+
+/-- non-vacuity: `gOrder` satisfies the side conditions of the alias theorems (rank = length of the chain below) -/
+example : aliasClosedB gOrder "o" ["o.A", "o.B", "o.C", "o.D", "o.L", "o.M", "o.N", "o.Z"] = true ∧
+    ownListB gOrder "o" ["o.A", "o.B", "o.C", "o.D", "o.L", "o.M", "o.N", "o.Z"] = true := by decide
 
 /-- non-vacuity of the hypotheses of the linearization theorems, and a parent chain placed root first -/
 example : (linearizeDataTypes gOrder "o" ["o.Child", "o.Mid", "o.Top"]).toOption = some ["o.Top", "o.Mid", "o.Child"] := by
   decide
 
-/-- After `normalize`: namespaces by name, routes by (name, version), data types and aliases by name. -/
+/-- After `normalize`: namespaces by name, routes by (name, version), data types, aliases, annotations and
+annotation types by name. -/
 theorem normalize_sorted (g : Graph) :
     ((normalize g).namespaces.map (·.name)).Pairwise (· ≤ ·) ∧
     ∀ n ∈ (normalize g).namespaces,
       n.routes.Pairwise (fun a b => g.nameOf a < g.nameOf b ∨
         (g.nameOf a = g.nameOf b ∧ g.versionOf a ≤ g.versionOf b)) ∧
       n.dataTypes.Pairwise (fun a b => g.nameOf a ≤ g.nameOf b) ∧
-      n.aliases.Pairwise (fun a b => g.nameOf a ≤ g.nameOf b) := by
+      n.aliases.Pairwise (fun a b => g.nameOf a ≤ g.nameOf b) ∧
+      n.annotations.Pairwise (· ≤ ·) ∧ n.annotationTypes.Pairwise (· ≤ ·) := by
   have hname : ∀ l : List Id, (l.mergeSort (leName g)).Pairwise (fun a b => g.nameOf a ≤ g.nameOf b) := by
     intro l
     have := List.pairwise_mergeSort (le := leName g)
@@ -143,7 +189,11 @@ theorem normalize_sorted (g : Graph) :
   · intro n hn
     simp only [normalize, List.mem_map] at hn
     obtain ⟨m, _, rfl⟩ := hn
-    refine ⟨?_, hname _, hname _⟩
+    have hstr : ∀ l : List String, (l.mergeSort leStr).Pairwise (· ≤ ·) := by
+      intro l
+      have := List.pairwise_mergeSort (le := leStr) leStr_trans leStr_total l
+      simpa [leStr] using this
+    refine ⟨?_, hname _, hname _, hstr _, hstr _⟩
     have := List.pairwise_mergeSort (le := leRoute g) (leRoute_trans g) (leRoute_total g) m.routes
     simpa [Namespace.normalize, leRoute_iff] using this
 
@@ -151,7 +201,8 @@ theorem normalize_sorted (g : Graph) :
 theorem normalize_perm (g : Graph) :
     ((normalize g).namespaces.map (·.name)).Perm (g.namespaces.map (·.name)) ∧
     ∀ n : Namespace, ((n.normalize g).routes.Perm n.routes ∧ (n.normalize g).dataTypes.Perm n.dataTypes ∧
-      (n.normalize g).aliases.Perm n.aliases) := by
+      (n.normalize g).aliases.Perm n.aliases ∧ (n.normalize g).annotations.Perm n.annotations ∧
+      (n.normalize g).annotationTypes.Perm n.annotationTypes) := by
   constructor
   · simp only [normalize, List.map_map]
     have : (fun n : Namespace => n.name) ∘ Namespace.normalize g = fun n => n.name := by
@@ -160,7 +211,8 @@ theorem normalize_perm (g : Graph) :
     simp only [Namespace.normalize]
     exact (List.mergeSort_perm _ _).map _
   · intro n
-    exact ⟨List.mergeSort_perm _ _, List.mergeSort_perm _ _, List.mergeSort_perm _ _⟩
+    exact ⟨List.mergeSort_perm _ _, List.mergeSort_perm _ _, List.mergeSort_perm _ _, List.mergeSort_perm _ _,
+      List.mergeSort_perm _ _⟩
 
 /-- `all_fields` as documented: with `c` the inheritance chain (root first), a struct lists the
 required fields of `c` (ancestors first), then the optional fields of `c` (ancestors first), where
